@@ -8,6 +8,8 @@ import (
 	"go/types"
 	"strconv"
 	"strings"
+
+	"golang.org/x/tools/go/ssa"
 )
 
 func init() {
@@ -804,11 +806,53 @@ func c04r4(p *Prog, r *Reporter) {
 		}
 		return ""
 	})
-	// All(ids...) sets each id
-	if fd := p.FuncDecl("ecs", "", "All"); fd != nil {
-		s := strings.ReplaceAll(p.src(fd.Body), " ", "")
-		okc := strings.Contains(s, "range") && strings.Contains(s, ".Set(") && strings.Contains(s, ",true)")
-		r.Check(okc, "ecs.All", "builds the set of the given ids", p.Pos(fd.Pos()), "ranges over the ids and sets each bit to true")
+	// All(ids...) sets each id: a Mask.Set(elem of ids, true) on the returned mask inside a loop over the parameter
+	if fn := p.Fn("ecs.All"); fn != nil && len(fn.Params) == 1 {
+		okc, why := false, "no Set(ids[i], true) call on the returned mask"
+		for _, site := range callsIn(fn) {
+			sc := site.Common().StaticCallee()
+			if sc == nil || sc.Name() != "Set" || typeName(recvType(sc)) != "Mask" || len(site.Common().Args) != 3 {
+				continue
+			}
+			a := site.Common().Args
+			k, isK := a[2].(*ssa.Const)
+			if !isK || k.Value == nil || k.Value.Kind() != constant.Bool || !constant.BoolVal(k.Value) {
+				why = "Set is not called with true"
+				continue
+			}
+			ld, isLd := a[1].(*ssa.UnOp)
+			if !isLd {
+				continue
+			}
+			ia, isIA := ld.X.(*ssa.IndexAddr)
+			if !isIA || ia.X != fn.Params[0] {
+				why = "the id set is not an element of the parameter"
+				continue
+			}
+			if full, w := fullRangeIndex(ia); !full {
+				why = "the loop does not cover the whole parameter: " + w
+				continue
+			}
+			// the receiver is the mask that is returned
+			ret := false
+			for _, b := range fn.Blocks {
+				if rt, ok := b.Instrs[len(b.Instrs)-1].(*ssa.Return); ok && len(rt.Results) == 1 {
+					if u, ok := rt.Results[0].(*ssa.UnOp); ok && u.X == a[0] {
+						ret = true
+					}
+				}
+			}
+			if !ret {
+				why = "the mask that is filled is not the one returned"
+				continue
+			}
+			okc = true
+		}
+		if okc {
+			r.OK("ecs.All", "builds the set of the given ids", p.FnPos(fn), "ranges over all ids and sets each bit to true in the returned mask")
+		} else {
+			r.Bad("ecs.All", "builds the set of the given ids", p.FnPos(fn), why)
+		}
 	} else {
 		r.Anchor("ecs.All")
 	}
@@ -837,43 +881,99 @@ func renameAtom(a string, ren map[string]string) string {
 }
 
 func c04ctor(p *Prog, r *Reporter, method string, check func(inc, exc string) string) {
-	fd := p.FuncDecl("ecs", "Mask", method)
 	name := "ecs.Mask." + method
-	if fd == nil {
+	fn := p.Fn("ecs.(Mask)." + method)
+	if fn == nil {
+		fn = p.Fn("ecs.(*Mask)." + method)
+	}
+	if fn == nil || len(fn.Params) == 0 {
 		r.Anchor(name)
 		return
 	}
-	ret, _, ok := inlineBody(fd)
-	cl, isCL := unparen(ret).(*ast.CompositeLit)
-	if !ok || !isCL {
-		r.Und(name, "filter construction", p.Pos(fd.Pos()), "the body is not a single MaskFilter literal")
-		return
-	}
-	rn := recvName(fd)
-	var inc, exc string
-	for _, el := range cl.Elts {
-		kv, ok := el.(*ast.KeyValueExpr)
-		if !ok {
-			continue
+	recv := fn.Params[0]
+	// describe a value in terms of the receiver b and the parameters
+	var desc func(v ssa.Value, depth int) string
+	isRecv := func(v ssa.Value) bool {
+		if v == recv {
+			return true
 		}
-		v := strings.ReplaceAll(p.src(kv.Value), " ", "")
-		if rn != "" {
-			v = strings.ReplaceAll(v, rn+".", "b.")
-			if v == rn {
-				v = "b"
+		// spilled receiver: the Alloc that the receiver is stored into, or a load of it
+		if u, ok := v.(*ssa.UnOp); ok && u.Op == token.MUL {
+			v = u.X
+		}
+		if al, ok := v.(*ssa.Alloc); ok {
+			stores := 0
+			isR := false
+			for _, ref := range *al.Referrers() {
+				if st, ok := ref.(*ssa.Store); ok && st.Addr == al {
+					stores++
+					isR = st.Val == recv
+				}
+			}
+			return stores == 1 && isR
+		}
+		return false
+	}
+	desc = func(v ssa.Value, depth int) string {
+		if depth > 4 {
+			return "?"
+		}
+		if isRecv(v) {
+			return "b"
+		}
+		if pr, ok := v.(*ssa.Parameter); ok {
+			return pr.Name()
+		}
+		if c := callOf(v); c != nil {
+			sc := c.Common().StaticCallee()
+			if sc == nil {
+				return "?"
+			}
+			var args []string
+			for _, a := range c.Common().Args {
+				args = append(args, desc(a, depth+1))
+			}
+			if sc.Signature.Recv() != nil && len(args) > 0 {
+				return args[0] + "." + sc.Name() + "(" + strings.Join(args[1:], ",") + ")"
+			}
+			if sc.Signature.Variadic() && len(args) > 0 {
+				args[len(args)-1] += "..."
+			}
+			return sc.Name() + "(" + strings.Join(args, ",") + ")"
+		}
+		return "?" + apath(v)
+	}
+	// the returned MaskFilter: a local whose Include / Exclude fields are stored exactly once each
+	inc, exc := "", ""
+	nInc, nExc := 0, 0
+	for _, b := range fn.Blocks {
+		for _, ins := range b.Instrs {
+			st, ok := ins.(*ssa.Store)
+			if !ok {
+				continue
+			}
+			fa, ok := st.Addr.(*ssa.FieldAddr)
+			if !ok || typeName(fa.X.Type()) != "MaskFilter" {
+				continue
+			}
+			switch fieldName(fa.X.Type(), fa.Field) {
+			case "Include":
+				inc = desc(st.Val, 0)
+				nInc++
+			case "Exclude":
+				exc = desc(st.Val, 0)
+				nExc++
 			}
 		}
-		switch p.src(kv.Key) {
-		case "Include":
-			inc = v
-		case "Exclude":
-			exc = v
-		}
+	}
+	if len(fn.Blocks) != 1 || nInc != 1 || nExc != 1 {
+		r.Und(name, "filter construction", p.FnPos(fn), fmt.Sprintf("the constructor is not straight-line code that sets Include and Exclude once each (blocks %d, Include stores %d, Exclude stores %d)", len(fn.Blocks), nInc, nExc))
+		return
 	}
 	if why := check(inc, exc); why != "" {
-		r.Bad(name, "filter construction", p.Pos(fd.Pos()), why)
+		r.Bad(name, "filter construction", p.FnPos(fn), why)
 	} else {
-		r.OK(name, "filter construction", p.Pos(fd.Pos()), "Include: "+inc+", Exclude: "+exc)
+		r.OK(name, "filter construction", p.FnPos(fn), "Include: "+inc+", Exclude: "+exc)
 	}
 }
 
